@@ -37,6 +37,8 @@ class CallMixin(ExprMixin):
         cs = None
         if self.C is not None:
             cs = self.C.callsites.get(full) or self.C.callsites.get(text)
+        if cs is not None and cs.get('pre') is not None and not self.spec_mode:
+            cs['pre'](self, n)
         if cs is not None and cs.get('model') is not None:
             return cs['model'](self, n, awaited)
         if text == 'cast' or text == 'typing.cast':
@@ -78,7 +80,7 @@ class CallMixin(ExprMixin):
         lam = n.args[0]
         if not isinstance(lam, ast.Lambda):
             raise Unsupported('%s needs a lambda' % which)
-        tys = [parse_ty(ast.literal_eval(a)) if isinstance(a, ast.Constant) else INT for a in n.args[1:]]
+        tys = [parse_ty(a.value) if isinstance(a, ast.Constant) else INT for a in n.args[1:]]
         saved = getattr(self, 'spec_locals', None)
         new = dict(saved or {})
         bound = []
@@ -426,6 +428,59 @@ class CallMixin(ExprMixin):
             v = fresh(ty, 'hv_' + field)
             self.st.heap[field] = z3.Store(arr, target, to_smt(v))
 
+    # ------------------------------------------------------------------ frame (checked per atomic segment)
+    def frame_baseline(self, kind: str, name: str):
+        fb = self.frame_base[kind]
+        if name in fb:
+            return fb[name]
+        return self.entry[kind].get(name)
+
+    def check_frame(self, where: str, env=None, only_fields=None, only_ghosts=None):
+        """This task's own writes since the last baseline must stay within the declared modifies clause."""
+        C = self.C
+        if env is None:
+            env = dict(self.entry['env'])
+        mods: dict[str, list] = {}
+        for f, tgt in C.modifies:
+            mods.setdefault(f, []).append(tgt)
+        now0 = self.entry['now']
+        for f in sorted(self.st.heap):
+            if f.startswith('$') or (only_fields is not None and f not in only_fields):
+                continue
+            a0 = self.frame_baseline('heap', f)
+            a1 = self.st.heap[f]
+            if a0 is None or a0.eq(a1):
+                continue
+            tg = mods.get(f, [])
+            if '*' in tg:
+                continue
+            r = z3.Const(fresh_name('frame_r'), Ref)
+            ante = [smt.born(r) < now0]
+            for t in tg:
+                ante.append(r != self.spec_eval(t, env).term)
+            self.oblige('frame@' + where, f, z3.Implies(z3.And(*ante) if ante else z3.BoolVal(True), z3.Select(a1, r) == z3.Select(a0, r)), ('frame',))
+        for g in sorted(self.st.ghost):
+            if g in C.ghost_modifies or (only_ghosts is not None and g not in only_ghosts):
+                continue
+            g0 = self.frame_baseline('ghost', g)
+            g1 = self.st.ghost[g]
+            if g0 is None or g0.term is g1.term or (z3.is_expr(g0.term) and z3.is_expr(g1.term) and g0.term.eq(g1.term)):
+                continue
+            self.oblige('frame@' + where, 'ghost:' + g, self.eq(V(g0.ty, g0.term), V(g1.ty, g1.term)), ('frame',))
+
+    def rebase_frame(self, fields, ghosts):
+        for f in fields:
+            if f in self.st.heap:
+                self.frame_base['heap'][f] = self.st.heap[f]
+        for g in ghosts:
+            if g in self.st.ghost:
+                self.frame_base['ghost'][g] = self.st.ghost[g]
+
+    def grow_alloc(self):
+        new = z3.Int(fresh_name('now'))
+        self.assume(new >= self.st.now)
+        self.st.now = new
+
     def havoc_ghost(self, name: str):
         ty = self.spec.ghosts[name]
         v = fresh(ty, 'ghost_' + name)
@@ -453,6 +508,8 @@ class CallMixin(ExprMixin):
                 self.havoc_field(f, self.spec_eval(tgt, env, entry=pre).term)
         for g in C.ghost_modifies:
             self.havoc_ghost(g)
+        if getattr(C, 'allocates', True):
+            self.grow_alloc()
         opts = [None] + [None] * len(C.raises)
         which = self.choice(opts, 'call:' + C.key) if C.raises else 0
         if which == 0:
@@ -512,20 +569,14 @@ class CallMixin(ExprMixin):
             for cl in I.inv:
                 self.oblige('inv@await#%d' % k, cl.label, self.spec_bool(cl.expr, env), cl.tags)
             pre = self.st.snapshot()
-            fields = list(self.st.heap) if '*' in I.havoc else I.havoc
+            fields = [f for f in (list(self.st.heap) if '*' in I.havoc else I.havoc) if f not in I.keep]
+            self.check_frame('await#%d' % k, None, only_fields=set(fields), only_ghosts=set(I.havoc_ghost))
             for f in fields:
-                if f in I.keep or f == '$alloc':
-                    continue
                 self.havoc_field(f)
-            # allocation only grows
-            if '*' in I.havoc:
-                old_alloc = self.heap_arr('$alloc')
-                new_alloc = z3.Const(fresh_name('H.$alloc'), old_alloc.sort())
-                r = z3.Const(fresh_name('r'), Ref)
-                self.assume(z3.ForAll([r], z3.Implies(z3.Select(old_alloc, r), z3.Select(new_alloc, r)), patterns=[z3.Select(old_alloc, r)]))
-                self.st.heap['$alloc'] = new_alloc
+            self.grow_alloc()   # allocation only grows
             for g in I.havoc_ghost:
                 self.havoc_ghost(g)
+            self.rebase_frame(fields, I.havoc_ghost)
             for cl in I.rely:
                 self.assume(self.spec_bool(cl.expr, env, entry=pre))
             for cl in I.inv:
